@@ -130,7 +130,6 @@ def eval_case(case):
 
 EQUIV = ('perm', 'pin_order')     # same structure: siblings / the pins of wires listed in another order
 NEUTRAL = ('lower_index', 'top_drop', 'top_add', 'oid', 'oid_rev', 'rename')   # not listed by the property
-BLIND = ('prop_added_entry', 'prop_added_key', 'prop_new')
 
 
 def oracle(case, pair):
@@ -157,6 +156,15 @@ def oracle(case, pair):
                                       label if rel == 'equiv_ord' else 'pin_order')]
     if rel == 'different' and real == 'accept' and not any(c in NEUTRAL or c.endswith('~rev') for c in parts):
         return ['accepts|%s' % '&'.join(c for c in parts if c not in EQUIV)]
+    if rel in ('covered', 'covered_set') and real == 'accept':
+        # properties that only the second netlist has are a difference (was the hole
+        # C20-extra-properties of compare_instances)
+        return ['accepts|covered']
+    if rel in ('different', 'covered', 'covered_set') and real in ('stopiteration', 'keyerror'):
+        # a difference between two named netlists is reported by AssertionError: the lookups of the
+        # comparer do not raise StopIteration (a name the second netlist lacks), nor KeyError (a
+        # property key it lacks) - whatever the classes of the edits (renames included)
+        return ['raises-%s|%s' % (real, label)]
     # (2) by the classes of the edits
     if any(c in NEUTRAL or c.endswith('~rev') for c in parts):
         return None
@@ -167,9 +175,8 @@ def oracle(case, pair):
         # several edits may undo or absorb each other: the relation decides what is expected
         if rel in ('equiv_ord', 'equiv_set'):
             return None
-        if rel in ('covered', 'covered_set'):
-            # only properties that the second netlist has in excess: the known hole
-            return ['accepts|covered'] if real == 'accept' else None
+        # 'covered' (only properties that the second netlist has in excess) is a difference:
+        # handled like 'different' below
     elif not diffs or pair.get('canon_equal'):
         if real == 'accept':
             return None
@@ -179,8 +186,6 @@ def oracle(case, pair):
         return None                # an unnamed element was created: outside the named netlists
     label = '&'.join(diffs)
     if real == 'accept':
-        if all(c in BLIND for c in diffs):
-            return ['accepts|%s' % diffs[0]]
         return ['accepts|%s' % label]
     if real != 'reject':
         sigs = ['raises-%s|%s' % (real, label)]
